@@ -27,7 +27,7 @@ import yaql
 from yaql.language import conventions, factory, specs, yaqltypes
 
 ID = 'C11'
-LEAN_MODULES = ['Yaql.Props.C11', 'Yaql.Props.C11Gen', 'Yaql.Props.C11Spell']
+LEAN_MODULES = ['Yaql.Props.C11', 'Yaql.Props.C11Gen', 'Yaql.Props.C11Spell', 'Yaql.Props.C11Err']
 P = 'Yaql.Props.C11.'
 REQUIRED_THEOREMS = [P + n for n in (
     'eager_once_in_order', 'log_independent_of_candidates', 'eager_fragment_trace', 'short_circuit_and',
@@ -36,7 +36,11 @@ REQUIRED_THEOREMS = [P + n for n in (
     'runFrom_log', 'runOn_log', 'per_element_total', 'per_element_own', 'per_element', 'per_element_own_firstK',
     'take_log', 'take_zero_log', 'take_short_log', 'simple_select', 'simple_filter', 'simple_takeWhile', 'simple_skipWhile',
     'applies_selectMany', 'applies_search', 'search_consumed', 'applies_each', 'applies_accumulate', 'applies_zip',
-    'concat_log', 'joinRows_events', 'join_pass_events', 'join_empty_outer', 'thunk_per_call', 'thunk_slots')] + [
+    'concat_log', 'joinRows_events', 'join_pass_events', 'join_empty_outer', 'thunk_per_call', 'thunk_slots',
+    # Props/C11Err.lean: error paths and lazy values that nothing consumes
+    'run_upto', 'run_prefix', 'run_complete', 'run_of_noRaise', 'raise_fails', 'raise_log', 'calls_prefix_of_probes',
+    'calls_nodup', 'evalPassE_prefix', 'evalPassE_first_raise', 'trace_subset_awake', 'unconsumed_never_fires',
+    'not_consumed_no_application', 'not_consumed_no_application_ops', 'consumed_prefix_only')] + [
     'Yaql.Props.C11Gen.lazy_params', 'Yaql.Props.C11Gen.lazy_functions', 'Yaql.Props.C11Gen.lazy_keyword_spelling',
     'Yaql.Props.C11Gen.lazy_rows_cover', 'Yaql.Props.C11Gen.lazy_rows_every_convention'] + [
     'Yaql.Props.C11Spell.' + n for n in ('mapLoop_move', 'mapArgs_kw_move', 'mapArgs_kwd_keys', 'chooseOverload_single',
@@ -102,8 +106,16 @@ def make_context(noverloads, conv='camel'):
         f = specs.parameter('y', yaqltypes.PythonType(tb, False, [lambda t: type(t) is not bool] if tb is int else None))(g)
         f = specs.parameter('x', yaqltypes.PythonType(ta, False, [lambda t: type(t) is not bool] if ta is int else None))(f)
         ctx.register_function(f, name='g')
+    # functions for the error paths: a host function that raises, and one name with two equal overloads (ambiguous)
+    ctx.register_function(boom, name='boom')
+    ctx.register_function(lambda x, y=0: 1, name='amb')
+    ctx.register_function(lambda x, y=0: 2, name='amb')
     ctx['host'] = make_host()
     return ctx
+
+
+def boom(x, y=0):
+    raise ValueError('boom')
 
 
 def make_host():
@@ -116,6 +128,9 @@ def make_host():
 
         def pick(self, a, b):
             return b
+
+        def boom(self, a):
+            raise ValueError('boom')
     h = Host()
     yaqlization.yaqlize(h)
     return h
@@ -132,6 +147,9 @@ class Gen:
         self.rng, self.ctx, self.max_depth = rng, ctx, max_depth
         self.n = 0
         self.features = set()
+        self.allow_lazy = True      # lazy values (unconsumed pipelines) may sit in the positions that do not iterate
+        self.plant = False          # one call of the expression is to end in an exception
+        self.planted = None
 
     def value(self, text):
         try:
@@ -148,16 +166,24 @@ class Gen:
 
     def leaf(self, ty):
         r = self.rng
+        if ty in ('Y', 'C'):
+            if self.allow_lazy and r.random() < (0.7 if ty == 'Y' else 0.5):
+                return self.lazy_value(0)
+            ty = 'A' if ty == 'Y' else 'B'
         c = {'I': lambda: str(r.choice([0, 1, 2, 3, 5])), 'B': lambda: r.choice(['true', 'false']),
              'S': lambda: r.choice(["'a'", "''", "'bc'"]), 'L': lambda: r.choice(['[1, 2]', '[]', '[3]']),
              'N': lambda: r.choice(['null', 'null', '1', "'x'"]),
              'A': lambda: r.choice(['0', '1', 'true', 'false', 'null', "'a'", "''", '[1]', '[]'])}[ty]()
+        if self.plant and self.planted is None and not self.deferred and r.random() < 0.3:
+            return self.plant_failure(c)
         return self.tick(c, dict(k='leaf'))
 
     def expr(self, ty, depth):
         """-> (text, X) of an expression of type ty with a probe around every operand"""
         if depth <= 0 or self.rng.random() < 0.15:
             return self.leaf(ty)
+        if ty in ('Y', 'C') and not self.allow_lazy:
+            ty = 'A' if ty == 'Y' else 'B'
         prods = getattr(self, 'p_' + ty)()
         name, fn = self.rng.choice(prods)
         self.features.add(name)
@@ -171,15 +197,18 @@ class Gen:
         parts = [self.expr(t, depth) for t in tys]
         return fmt.format(*[p[0] for p in parts]), dict(k='eager', ks=[p[1] for p in parts])
 
+    # The facts an operator's selection depends on are taken IN PLACE: `bool(<operand>)` / `<operand> = null` evaluated
+    # by the engine, not Python's `bool` of the finalised value - a lazy value (an iterator, an ordering) is true and not
+    # null whatever it would yield, and asking must not iterate it.
     def truthy(self, text):
         if self.deferred:
-            return {'$f': 'truthy', 't': text}
-        return bool(self.value(text))
+            return {'$f': 'truthy', 't': 'bool(%s)' % text}
+        return self.value('bool(%s)' % text) is True
 
     def isnull(self, text):
         if self.deferred:
-            return {'$f': 'null', 't': text}
-        return self.value(text) is None
+            return {'$f': 'truthy', 't': '((%s) = null)' % text}
+        return self.value('((%s) = null)' % text) is True
 
     def p_I(self):
         e = self.eager
@@ -202,6 +231,8 @@ class Gen:
             ('host-method-kw', lambda d: e('$host.add({}, b => {})', 'II', d)),
             ('host-method-kw2', lambda d: e('$host.add({}, c => {}, b => {})', 'III', d)),
             ('host-method-kw3', lambda d: e('$host.pick({}, b => {})', 'II', d)),
+            # a lazy value handed to a function that drops it
+            ('lazy-passed-and-dropped', lambda d: e('$host.pick({}, {})', 'YI', d)),
         ]
 
     def indexer(self, d):
@@ -218,6 +249,10 @@ class Gen:
             ('=', lambda d: e('({} = {})', 'AA', d)), ('!=', lambda d: e('({} != {})', 'II', d)),
             ('in', lambda d: e('({} in {})', 'IL', d)), ('isInteger', lambda d: e('isInteger({})', 'A', d)),
             ('bool', lambda d: e('bool({})', 'A', d)),
+            # truth tests of values that may be lazy: asking does not iterate
+            ('not-lazy', lambda d: e('(not {})', 'Y', d)), ('bool-lazy', lambda d: e('bool({})', 'Y', d)),
+            ('isInteger-lazy', lambda d: e('isInteger({})', 'Y', d)),
+            ('lazy-and-bool', lambda d: self.andor('and', d, 'B', first='Y')),
         ]
 
     def p_S(self):
@@ -242,15 +277,40 @@ class Gen:
         ]
 
     def p_N(self):
+        e = self.eager
         return [('switch', self.switch), ('coalesce', lambda d: self.coalesce(d, 'N')), ('elvis', self.elvis),
-                ('and-any', lambda d: self.andor('and', d, 'A')), ('or-any', lambda d: self.andor('or', d, 'A'))]
+                ('and-any', lambda d: self.andor('and', d, 'A')), ('or-any', lambda d: self.andor('or', d, 'A')),
+                # positions that hold a (maybe lazy) value without iterating it; what comes out is not lazy
+                ('lazy-and', lambda d: self.andor('and', d, 'A', first='Y')),
+                ('lazy-dropped-in-list', lambda d: e('[{}, {}, {}][1]', 'YAY', d)),
+                ('lazy-dropped-in-dict', lambda d: e('{{a => {}, b => {}}}.get(b)', 'YA', d)),
+                # (by keyword only: `let(a, b) -> ..` binds `$1`, which is what `$` reads)
+                ('lazy-let-unread', lambda d: e('(let(zz => {}) -> {})', 'YA', d)),
+                ('lazy-let-unread-2', lambda d: e('(let(zz => {}, yy => {}) -> {})', 'YYA', d))]
+
+    def p_Y(self):
+        """values that may be LAZY (an unconsumed pipeline, or an operator that hands one on): only for positions that
+        do not iterate their operand"""
+        e = self.eager
+        return [('lazy', self.lazy_value), ('lazy', self.lazy_value),
+                ('lazy-or-any', lambda d: self.andor('or', d, 'A', first='Y')),
+                ('bool-and-lazy', lambda d: self.andor('and', d, 'Y', first='B')),
+                ('coalesce-lazy', lambda d: self.coalesce(d, 'Y')),
+                ('switch-lazy', lambda d: self.switch(d, 'Y')),
+                ('lazy-passed-on', lambda d: e('$host.pick({}, {})', 'IY', d)),
+                ('lazy-picked-from-list', lambda d: e('[{}, {}][1]', 'AY', d)),
+                ('lazy-assert', lambda d: self.assert_(d, 'Y'))]
+
+    def p_C(self):
+        """conditions: anything that is tested for truth"""
+        return self.p_B() + [('lazy-condition', self.lazy_value)] * 4 + [('lazy-condition-passed', lambda d: self.expr('Y', d))] * 2
 
     def p_A(self):
         ty = self.rng.choice('IBSLN')
         return getattr(self, 'p_' + ty)()
 
-    def andor(self, op, d, ty='B'):
-        a, xa = self.expr(ty, d)
+    def andor(self, op, d, ty='B', first=None):
+        a, xa = self.expr(first or ty, d)
         b, xb = self.expr(ty, d)
         return '(%s %s %s)' % (a, op, b), dict(k=op, a=xa, b=xb, t=self.truthy(a))
 
@@ -265,24 +325,24 @@ class Gen:
         a, xa = self.expr('I', d)
         return '%s?.indexOf(%s)' % (r, a), dict(k='elvis', r=xr, null=v is None, ks=[xa])
 
-    def switch(self, d):
+    def switch(self, d, vty='A'):
         n = self.rng.choice([1, 2, 3])
-        cs = [self.expr('B', d) for _ in range(n)]
-        vs = [self.expr('A', d) for _ in range(n)]
+        cs = [self.expr('C', d) for _ in range(n)]
+        vs = [self.expr(vty, d) for _ in range(n)]
         text = 'switch(%s)' % ', '.join('%s => %s' % (c[0], v[0]) for c, v in zip(cs, vs))
         return text, dict(k='switch', cs=[c[1] for c in cs], ts=[self.truthy(c[0]) for c in cs], vs=[v[1] for v in vs])
 
     def select_case(self, d):
-        ps = [self.expr('B', d) for _ in range(self.rng.choice([1, 2, 3]))]
+        ps = [self.expr('C', d) for _ in range(self.rng.choice([1, 2, 3]))]
         return 'selectCase(%s)' % ', '.join(p[0] for p in ps), dict(
             k='selectCase', ps=[p[1] for p in ps], ts=[self.truthy(p[0]) for p in ps])
 
     def select_all(self, d):
-        ps = [self.expr('B', d) for _ in range(self.rng.choice([1, 2, 3]))]
+        ps = [self.expr('C', d) for _ in range(self.rng.choice([1, 2, 3]))]
         return 'selectAllCases(%s).toList()' % ', '.join(p[0] for p in ps), dict(k='allCases', ps=[p[1] for p in ps])
 
     def examine(self, d):
-        ps = [self.expr('A', d) for _ in range(self.rng.choice([1, 2, 3]))]
+        ps = [self.expr(self.rng.choice('AY'), d) for _ in range(self.rng.choice([1, 2, 3]))]
         return 'examine(%s).toList()' % ', '.join(p[0] for p in ps), dict(k='allCases', ps=[p[1] for p in ps])
 
     def switch_case(self, d):
@@ -300,7 +360,7 @@ class Gen:
             args = [self.tick(self.rng.choice(['null', 'null', '4']), dict(k='leaf'))
                     for _ in range(self.rng.choice([1, 2]))] + [self.expr(last, d)]
         else:
-            args = [self.expr('N', d) for _ in range(self.rng.choice([1, 2]))] + [self.expr(last, d)]
+            args = [self.expr('Y' if last == 'Y' else 'N', d) for _ in range(self.rng.choice([1, 2]))] + [self.expr(last, d)]
         return 'coalesce(%s)' % ', '.join(a[0] for a in args), dict(
             k='coalesce', nulls=[self.isnull(a[0]) for a in args], **{'as': [a[1] for a in args]})
 
@@ -339,7 +399,7 @@ class Gen:
         """obj.assert(condition, message): obj and message are evaluated when the call is made (message behind obj even
         when it is written in front of the condition or by keyword), the lazily passed condition once, in the body"""
         r, xr = self.expr(ty, d)
-        c, xc = self.expr('B', d)
+        c, xc = self.expr('C', d)
         t, xt = self.tick('true', dict(k='leaf'))
         cond, xcond = '(%s or %s)' % (c, t), dict(k='or', a=xc, b=xt, t=self.truthy(c))
         ks = [xr]
@@ -354,6 +414,117 @@ class Gen:
         vs = [self.expr('A', d) for _ in range(2)]
         text = '{%s}.keys().toList()' % ', '.join('%s => %s' % (k[0], v[0]) for k, v in zip(ks, vs))
         return text, dict(k='eager', ks=[ks[0][1], vs[0][1], ks[1][1], vs[1][1]])
+
+
+    def lazy_value(self, d):
+        """a lazy value: a pipeline of streaming operators / an ordering over a list literal, with numbered probes in its
+        collection and eager arguments (they fire when the expression is built) and inside its per-element lambdas (they
+        must not fire: nothing iterates the value where it is put).  X: `lazy` (built, dormant)"""
+        r = self.rng
+        pg = PipeGen(r, self.ctx, 1)
+        pg.g.n = self.n
+        pg.g.allow_lazy = False
+        if r.random() < 0.4:
+            p = pg.order_pipe()
+        else:
+            # (list sources: the optional arguments of generate / generateMany keep their keywords in the plain spelling,
+            # and the text is converted to other conventions by function names only)
+            p = pg.pipe(r.choice([1, 1, 2]), allow_second=r.random() < 0.3, generated=False)
+        p = positional(dict(p, conv='camel'))
+        self.n = pg.g.n
+        ref = RefEval(self.ctx)
+        ref.build(dict(p, stages=[st for st in p['stages'] if st['op'] not in ORDER_OPS]))
+        for st in p['stages']:
+            self.features.add('lazy:' + st['op'])
+        return pipe_text(p, 'camel'), dict(k='lazy', b=[dict(k='tick', id=i, a=dict(k='leaf')) for i in ref.log],
+                                          d=[inst(b, lambda fl: False) for b in pipe_bodies(p)])
+
+    # ---- calls that end in an exception
+    FAILS = ['unknown-function', 'unknown-function-2', 'unknown-method', 'unknown-property', 'unknown-property-null',
+             'method-as-function', 'arity', 'no-matching-function', 'no-matching-function-1', 'no-matching-method',
+             'ambiguous', 'host-raises', 'host-raises-kw', 'host-method-raises', 'division', 'index', 'int-of-text',
+             'assert-false', 'assert-false-message']
+
+    def plant_failure(self, const):
+        """a leaf `tick(n, c)` that will be REPLACED, after the expression around it has been generated (and its operand
+        facts taken from evaluations that work), by a call that ends in an exception: X `raise` with the operands that
+        are evaluated before the exception - none when the resolution fails before the evaluation stage (nothing
+        registered under the name / for methods, no overload takes that many arguments), all eager arguments when the
+        evaluated values decide (no overload or two overloads accept them) or the payload raises"""
+        r = self.rng
+        kind = r.choice(self.FAILS)
+        n = self.n + 1
+        m1, m2 = n + 1, n + 2
+        self.n += 3
+        lf = dict(k='leaf')
+        T = lambda i: dict(k='tick', id=i, a=lf)        # noqa
+        a, b, c = 'tick(%d, ' % n, 'tick(%d, ' % m1, 'tick(%d, ' % m2
+        text, ks, exc = {
+            'unknown-function': ('nosuch(%s1))' % a, [], 'NoFunctionRegisteredException'),
+            'unknown-function-2': ('nosuch(%s1), %s2))' % (a, b), [], 'NoFunctionRegisteredException'),
+            'unknown-method': ('%s1).nosuch(%s2))' % (a, b), [T(n)], 'NoMethodRegisteredException'),
+            'unknown-property': ("%s'x').nosuchProp" % a, [T(n)], 'NoFunctionRegisteredException'),
+            'unknown-property-null': ('%snull).nosuchProp' % a, [T(n)], 'NoFunctionRegisteredException'),
+            'method-as-function': ('where(%s[1]), %strue))' % (a, b), [], 'NoFunctionRegisteredException'),
+            'arity': ('abs(%s1), %s2))' % (a, b), [], 'NoMatchingFunctionException'),
+            'no-matching-function': ('g(%s1), %s[1]))' % (a, b), [T(n), T(m1)], 'NoMatchingFunctionException'),
+            'no-matching-function-1': ("abs(%s'x'))" % a, [T(n)], 'NoMatchingFunctionException'),
+            'no-matching-method': ('%s1).len()' % a, [T(n)], 'NoMatchingMethodException'),
+            'ambiguous': ('amb(%s1), %s2))' % (a, b), [T(n), T(m1)], 'AmbiguousFunctionException'),
+            'host-raises': ('boom(%s1), %s2))' % (a, b), [T(n), T(m1)], 'ValueError'),
+            'host-raises-kw': ('boom(%s1), y => %s2))' % (a, b), [T(n), T(m1)], 'ValueError'),
+            'host-method-raises': ('$host.boom(%s1))' % a, [T(n)], 'ValueError'),
+            'division': ('(%s1) / %s0))' % (a, b), [T(n), T(m1)], 'ZeroDivisionError'),
+            'index': ('[%s1)][%s3)]' % (a, b), [T(n), T(m1)], 'IndexError'),
+            'int-of-text': ("int(%s'x'))" % a, [T(n)], 'ValueError'),
+            'assert-false': ('%s1).assert(%sfalse))' % (a, b), [T(n), T(m1)], 'AssertionError'),
+            'assert-false-message': ("%s1).assert(%sfalse), %s'm'))" % (a, b, c), [T(n), T(m2), T(m1)], 'AssertionError'),
+        }[kind]
+        healthy = 'tick(%d, %s)' % (n, const)
+        node = dict(k='tick', id=n, a=lf)
+        self.planted = dict(kind=kind, healthy=healthy, failing=text, node=node, x=dict(k='raise', ks=ks), exc=exc)
+        return healthy, node
+
+    def finish(self, text, x):
+        """puts the planted failing call in"""
+        pl = self.planted
+        if pl is None:
+            return text, x
+        if text.count(pl['healthy']) != 1:
+            raise Bad('the planted leaf does not occur exactly once')
+        pl['node'].clear()
+        pl['node'].update(pl['x'])
+        self.features.add('fails:' + pl['kind'])
+        return text.replace(pl['healthy'], pl['failing']), x
+
+    def fail_at_output(self, d):
+        """an exception raised LAZILY, while the result is converted for the host: the elements of the list are evaluated
+        when the expression is, the failing lambda when the finaliser pulls the first element"""
+        r = self.rng
+        es = [self.expr('I', d) for _ in range(r.choice([1, 2]))]
+        m = self.n + 1
+        self.n += 1
+        T = dict(k='tick', id=m, a=dict(k='leaf'))
+        lam, ks = r.choice([('select(nosuch($))', []), ('select($.nosuchProp)', []), ('where(boom($, tick(%d, 1)))' % m, [T]),
+                            ('select(amb(tick(%d, $), $))' % m, [T]), ('orderBy(boom(tick(%d, $)))' % m, [T]),
+                            ('select($.nosuch(tick(%d, 1)))' % m, []), ('select(where($, true))', []),
+                            ('takeWhile(g(tick(%d, $), [1]))' % m, [T]), ('skip(0).select($ / tick(%d, 0))' % m, [T])])
+        if lam.startswith('orderBy') and len(es) < 2:
+            es.append(self.expr('I', d))         # a single element is not compared: no key is taken
+        self.features.add('fails-at-output:' + lam.split('(')[0])
+        return '[%s].%s' % (', '.join(t for t, _ in es), lam), dict(k='eager', ks=[x for _, x in es] + [dict(k='raise', ks=ks)])
+
+
+def pipe_bodies(p):
+    """the X of every per-element lambda of a pipeline spec (secondary pipelines included)"""
+    out = []
+    for d in [p['src']] + p['stages']:
+        for v in d.values():
+            if isinstance(v, dict) and 'x' in v and 'text' in v:
+                out.append(v['x'])
+        if d.get('other'):
+            out += pipe_bodies(d['other'])
+    return out
 
 
 def switch_sel(v, nargs):
@@ -407,15 +578,88 @@ def py_trace(x):
         for is_call in x['sl']:
             out += py_trace(x['b']) if is_call else py_trace(rest.pop(0))
         return out
+    if k == 'raise':            # the log if the call did not fail
+        return [i for c in x['ks'] for i in py_trace(c)]
+    if k == 'lazy':             # building the lazy value; its per-element lambdas stay dormant
+        return [i for c in x['b'] for i in py_trace(c)]
     raise ValueError(k)
 
 
-def real_log(text, ctx):
+class Raised(Exception):
+    pass
+
+
+def py_run(x):
+    """-> (log, failed): the reference order when calls may end in an exception (X `raise`): the evaluation stops at the
+    first failing call that is reached; everything in front of it has been evaluated as `py_trace` says, nothing behind
+    it, nothing twice"""
+    log = []
+
+    def go(x):
+        k = x['k']
+        if k == 'leaf':
+            return
+        if k == 'tick':
+            go(x['a'])
+            log.append(x['id'])
+        elif k in ('eager', 'allCases', 'raise', 'lazy'):
+            for c in x['ks' if k in ('eager', 'raise') else 'ps' if k == 'allCases' else 'b']:
+                go(c)
+            if k == 'raise':
+                raise Raised()
+        elif k == 'and':
+            go(x['a'])
+            if x['t']:
+                go(x['b'])
+        elif k == 'or':
+            go(x['a'])
+            if not x['t']:
+                go(x['b'])
+        elif k == 'elvis':
+            go(x['r'])
+            if not x['null']:
+                for c in x['ks']:
+                    go(c)
+        elif k == 'switch':
+            for c, t, v in zip(x['cs'], x['ts'], x['vs']):
+                go(c)
+                if t:
+                    go(v)
+                    return
+        elif k == 'selectCase':
+            for p, t in zip(x['ps'], x['ts']):
+                go(p)
+                if t:
+                    return
+        elif k == 'switchCase':
+            go(x['c'])
+            if x['as']:
+                go(x['as'][x['sel']])
+        elif k == 'coalesce':
+            for a, nul in zip(x['as'], x['nulls']):
+                go(a)
+                if not nul:
+                    return
+        elif k == 'defCalls':
+            rest = list(x['os'])
+            for is_call in x['sl']:
+                go(x['b'] if is_call else rest.pop(0))
+        else:
+            raise ValueError(k)
+    try:
+        go(x)
+    except Raised:
+        return log, True
+    return log, False
+
+
+def real_log(text, ctx, keep=False):
+    """-> (log, None) or (None, exception class); keep: the log up to the exception instead of None"""
     del LOG[:]
     try:
         ENGINE(text).evaluate(context=ctx)
     except Exception as e:
-        return None, type(e).__name__
+        return (list(LOG) if keep else None), type(e).__name__
     return list(LOG), None
 
 
@@ -502,15 +746,18 @@ class LamGen(Gen):
     def p_S(self):
         return [p for p in Gen.p_S(self) if p[0] != 'assert-str']
 
+    def p_Y(self):
+        return [p for p in Gen.p_Y(self) if p[0] != 'lazy-assert']
+
     def body(self, ty, var, depth):
         """-> {'text', 'x' (flags deferred), 'vars'}; `var`: how the lambda refers to the (integer) element"""
         self.var = var
         text, x = self.expr(ty, depth)
         if '$' not in text:                  # keep it a function of the element
             t2, x2 = self.tick(var, dict(k='leaf'))
-            if ty == 'B':
+            if ty in ('B', 'C'):
                 text, x = '(%s and %s > %d)' % (text, t2, self.rng.choice([0, 1, 2])), dict(
-                    k='and', a=x, b=x2, t={'$f': 'truthy', 't': text})
+                    k='and', a=x, b=x2, t=self.truthy(text))
             else:
                 text, x = '[%s, %s][1]' % (text, t2), dict(k='eager', ks=[x, x2])
         return dict(text=text, x=x)
@@ -622,10 +869,10 @@ class PipeGen:
         """keeps the generated values in a small range (with `decycle` the generation then ends)"""
         return dict(b, text='(%s) mod %d' % (b['text'], m))
 
-    def pipe(self, nstages, allow_second=True, terminal_ok=False, conv=None):
+    def pipe(self, nstages, allow_second=True, terminal_ok=False, conv=None, generated=None):
         """-> pipeline spec; the elements handed on are integers except behind zip / enumerate (pairs)"""
         r = self.rng
-        p = dict(src=self.source(generated=allow_second), stages=[])
+        p = dict(src=self.source(generated=allow_second if generated is None else generated), stages=[])
         if conv is not None:
             p['conv'] = conv
         var = '$'
@@ -643,8 +890,10 @@ class PipeGen:
                     st['body'] = dict(text='[%s, %s]' % (st['body']['text'], b2['text']),
                                       x=dict(k='eager', ks=[st['body']['x'], b2['x']]), vars=['$'])
                 var = '$'
-            elif op in ('where', 'takeWhile', 'skipWhile', 'any', 'all', 'indexWhere', 'lastIndexWhere', 'sliceWhere',
-                        'splitWhere'):
+            elif op in ('where', 'takeWhile', 'skipWhile', 'any', 'all', 'indexWhere', 'lastIndexWhere'):
+                # the predicate's result is tested for truth: it may be a lazy value, which the test must not iterate
+                st['body'] = self.body('C' if self.g.allow_lazy and r.random() < 0.15 else 'B', var)
+            elif op in ('sliceWhere', 'splitWhere'):
                 st['body'] = self.body('B', var)
             elif op == 'distinct':
                 if r.random() < 0.85 or var != '$':
@@ -798,6 +1047,13 @@ class RefEval:
         self.log += py_trace(inst(body['x'], lambda fl: flagval(fl, self.ctx, env)))
         return freeze(ev(body['text'], self.ctx, env))
 
+    def test(self, body, *args):
+        """applies a predicate: its probes fire, its result is tested for truth where it is (a lazy result is true and
+        is not iterated)"""
+        env = dict(zip(body['vars'], args))
+        self.log += py_trace(inst(body['x'], lambda fl: flagval(fl, self.ctx, env)))
+        return ev('bool(%s)' % body['text'], self.ctx, env) is True
+
     def source(self, src):
         ap = self.apply
         if src.get('kind', 'list') == 'list':
@@ -845,16 +1101,16 @@ class RefEval:
         return freeze(list(o)) if hasattr(o, '__next__') else o
 
     def stage(self, up, st):
-        op, ap = st['op'], self.apply
+        op, ap, test = st['op'], self.apply, self.test
         b = st.get('body')
         if op == 'select':
             return (ap(b, v) for v in up)
         if op == 'where':
-            return (v for v in up if ap(b, v))
+            return (v for v in up if test(b, v))
         if op == 'takeWhile':
-            return itertools.takewhile(lambda v: ap(b, v), up)
+            return itertools.takewhile(lambda v: test(b, v), up)
         if op == 'skipWhile':
-            return itertools.dropwhile(lambda v: ap(b, v), up)
+            return itertools.dropwhile(lambda v: test(b, v), up)
         if op == 'selectMany':
             def many():
                 for v in up:
@@ -906,24 +1162,24 @@ class RefEval:
             return (ap(st['sel'], x, y) for x in up for y in inner if ap(st['pred'], x, y))
         # ---- consumers
         if op == 'any':
-            return any(ap(b, v) for v in up)
+            return any(test(b, v) for v in up)
         if op == 'anyNoPred':
             for _ in up:
                 return True
             return False
         if op == 'all':
-            return all(ap(b, v) for v in up)
+            return all(test(b, v) for v in up)
         if op == 'allNoPred':
             return all(v for v in up)
         if op == 'indexWhere':
             for i, v in enumerate(up):
-                if ap(b, v):
+                if test(b, v):
                     return i
             return -1
         if op == 'lastIndexWhere':
             r = -1
             for i, v in enumerate(up):
-                if ap(b, v):
+                if test(b, v):
                     r = i
             return r
         if op == 'first':
@@ -1049,7 +1305,11 @@ class Describe:
         op = st['op']
         b = st.get('body')
         xs = [self.x(b, v) for v in elems] if b is not None and b['vars'] == ['$'] else []
-        vs = [self.val(b, v) for v in elems] if b is not None and b['vars'] == ['$'] else []
+        if op in ('where', 'takeWhile', 'skipWhile', 'any', 'all', 'indexWhere', 'lastIndexWhere'):
+            # the truth of the predicate's result where it is (a lazy result is true)
+            vs = [ev('bool(%s)' % b['text'], self.ctx, {'$': v}) is True for v in elems]
+        else:
+            vs = [self.val(b, v) for v in elems] if b is not None and b['vars'] == ['$'] else []
         if op == 'select':
             return dict(op='select', bodies=xs), vs
         if op == 'where':
@@ -1155,16 +1415,48 @@ def conv_context(conv, noverloads=3):
     return _CONV_CTX[(conv, noverloads)]
 
 
-def real_pipe(text, ctx):
+def real_pipe(text, ctx, keep=False):
+    """-> (value, log, None) or (None, None, exception class); keep: the log up to the exception instead of None"""
     del LOG[:]
+    err = v = None
     try:
         v = ENGINE(text).evaluate(context=ctx)
     except Exception as e:
-        return None, None, type(e).__name__
-    finally:
-        log = list(LOG)
-        del LOG[:]
+        err = type(e).__name__
+    log = list(LOG)
+    del LOG[:]
+    if err is not None:
+        return None, (log if keep else None), err
     return freeze(v), log, None
+
+
+FAIL_TAILS = ['select(nosuch($))', 'select(boom($))', 'where(nosuch($))', 'select($.nosuch())', 'takeWhile(amb($))',
+              'select(where($, true))', "select(g($, [1]))"]
+
+
+def failing_tail_verdict(p, ctx, tail):
+    """an exception raised LAZILY, when the host's finaliser pulls the first result of a pipeline whose last lambda
+    fails: at that point exactly what is needed for ONE result has been evaluated - the log of the same pipeline
+    consumed by `.take(1)` (Yaql.Props.C11.consumed_prefix_only) -, nothing behind it, nothing twice"""
+    conv = p.get('conv', 'camel')
+    text = '%s.%s' % (pipe_text(p), conv_text(tail, conv))
+    ref = RefEval(ctx)
+    first = ref.run(dict(p, stages=p['stages'] + [dict(op='take', k=1)]))
+    _, log, err = real_pipe(text, conv_context(conv), keep=True)
+    where = '' if conv == 'camel' else ' (in a context of the %s naming convention)' % conv
+    if first and err is None:
+        return ('mismatch', 'error-path-per-element-model', '%s%s: the reference expects the last lambda to fail on the first '
+                'result; the evaluation returns' % (text, where)), text
+    if not first and err is not None:
+        return ('mismatch', 'error-path-per-element-model', '%s%s: raises %s although the pipeline has no result' % (
+            text, where, err)), text
+    if log != ref.log:
+        twice = sorted(set(i for i in log if log.count(i) > ref.log.count(i)))
+        return ('oracle', 'error-path-per-element', '%s%s: %s; probe log %r, but what is evaluated up to the first result - '
+                'each lambda once per element consumed, in order - is %r%s' % (
+                    text, where, 'ends in %s when the first result is converted' % err if err else 'returns', log, ref.log,
+                    ' (evaluated more than once: %r)' % twice if twice else '')), text
+    return None, text
 
 
 def positional(p):
@@ -1380,6 +1672,15 @@ def shrink_pipe_shape(p, ctx, drv, kind, key=None):
     return p
 
 
+def lazy_nodes(x):
+    """the `lazy` nodes of an X"""
+    if isinstance(x, dict):
+        return ([x] if x.get('k') == 'lazy' else []) + [n for v in x.values() for n in lazy_nodes(v)]
+    if isinstance(x, list):
+        return [n for v in x for n in lazy_nodes(v)]
+    return []
+
+
 def probe_ids(x):
     """every probe id that occurs in an X (fired or not)"""
     if isinstance(x, dict):
@@ -1440,6 +1741,40 @@ HAND = [
                                                       dict(k='tick', id=2, a=dict(k='leaf'))])),
     ('tick(1, null)?.indexOf(tick(2, 1))', dict(k='elvis', r=dict(k='tick', id=1, a=dict(k='leaf')), null=True,
                                                 ks=[dict(k='tick', id=2, a=dict(k='leaf'))])),
+]
+
+_T = lambda i, a=None: dict(k='tick', id=i, a=a or dict(k='leaf'))      # noqa
+_LZ = lambda b, d: dict(k='lazy', b=[_T(i) for i in b], d=[_T(i) for i in d])      # noqa
+# error paths (one per class of failure) and lazy values in positions that do not iterate them
+HAND += [
+    ('[tick(1, 1), nosuch(tick(2, 2)), tick(3, 3)]', dict(k='eager', ks=[_T(1), dict(k='raise', ks=[]), _T(3)])),
+    ("g(tick(1, 1), tick(2, 'x').nosuchProp)", dict(k='eager', ks=[_T(1), dict(k='raise', ks=[_T(2)])])),
+    ('max(tick(1, 1), tick(2, 2).nosuch(tick(3, 3)))', dict(k='eager', ks=[_T(1), dict(k='raise', ks=[_T(2)])])),
+    ('[tick(1, 1), where(tick(2, [1]), tick(3, true))]', dict(k='eager', ks=[_T(1), dict(k='raise', ks=[])])),
+    ('{a => tick(1, 1), b => abs(tick(2, 1), tick(3, 1))}', dict(k='eager', ks=[_T(1), dict(k='raise', ks=[])])),
+    ('[tick(1, 1), g(tick(2, 1), tick(3, [1]))]', dict(k='eager', ks=[_T(1), dict(k='raise', ks=[_T(2), _T(3)])])),
+    ('[tick(1, 1), amb(tick(2, 1), y => tick(3, 1))]', dict(k='eager', ks=[_T(1), dict(k='raise', ks=[_T(2), _T(3)])])),
+    ('(tick(1, 1) + boom(tick(2, 1), tick(3, 1)))', dict(k='eager', ks=[_T(1), dict(k='raise', ks=[_T(2), _T(3)])])),
+    ('(tick(1, true) and (tick(2, 1) / tick(3, 0)))', dict(k='and', a=_T(1), b=dict(k='raise', ks=[_T(2), _T(3)]), t=True)),
+    ('(tick(1, false) and (tick(2, 1) / tick(3, 0)))', dict(k='and', a=_T(1), b=dict(k='raise', ks=[_T(2), _T(3)]), t=False)),
+    ('[tick(1, 1), tick(2, 2)].select(nosuch($))', dict(k='eager', ks=[_T(1), _T(2), dict(k='raise', ks=[])])),
+    ('[tick(1, 1), tick(2, 2)].where(boom($, tick(3, 1)))', dict(k='eager', ks=[_T(1), _T(2), dict(k='raise', ks=[_T(3)])])),
+    ('(def(fz, tick(1, 1).nosuchProp) -> [tick(2, 1), fz(), fz()])',
+     dict(k='defCalls', b=dict(k='raise', ks=[_T(1)]), sl=[False, True, True], os=[_T(2)])),
+    ('([tick(1, 2), 1].orderBy(tick(2, $)) and tick(3, 5))', dict(k='and', a=_LZ([1], [2]), b=_T(3), t=True)),
+    ('(([tick(1, 2), 1].select(tick(2, $)) or tick(3, 5)) and tick(4, 1))',
+     dict(k='and', a=dict(k='or', a=_LZ([1], [2]), b=_T(3), t=True), b=_T(4), t=True)),
+    ('(not [tick(1, 2), 1].orderBy(tick(2, $)).thenBy(tick(3, $)))', dict(k='eager', ks=[_LZ([1], [2, 3])])),
+    ('bool([tick(1, 2), 1].where(tick(2, $)))', dict(k='eager', ks=[_LZ([1], [2])])),
+    ('switch([tick(1, 2), 1].orderByDescending(tick(2, $)) => tick(3, 1))',
+     dict(k='switch', cs=[_LZ([1], [2])], ts=[True], vs=[_T(3)])),
+    ('selectCase([tick(1, 2), 1].orderBy(tick(2, $)), tick(3, true))',
+     dict(k='selectCase', ps=[_LZ([1], [2]), _T(3)], ts=[True, True])),
+    ('[coalesce([tick(1, 2), 1].orderBy(tick(2, $)), tick(3, 1)), tick(4, 1)][1]',
+     dict(k='eager', ks=[dict(k='coalesce', **{'as': [_LZ([1], [2]), _T(3)], 'nulls': [False, True]}), _T(4)])),
+    ('(let(zz => [tick(1, 2), 1].memorize().select(tick(2, $))) -> tick(3, 1))', dict(k='eager', ks=[_LZ([1], [2]), _T(3)])),
+    ('tick(3, 1).assert([tick(1, 2), 1].orderBy(tick(2, $)))', dict(k='eager', ks=[_T(3), _LZ([1], [2])])),
+    ('[tick(1, 2), 1].where([$].orderBy(tick(2, $))).len()', dict(k='eager', ks=[_T(1)])),
 ]
 
 
@@ -1540,6 +1875,27 @@ def run_pipes(env, res, rng0, ctxs, hist, rp):
             res.fail(g[0], g[1], g[2], dict(pipe=small, text=pipe_text(small)))
             if len([x for x in res.failures if x.key.startswith('per-element') or x.key == 'spelling']) >= 6:
                 break
+        elif (rp is not None and rp.get('tail')) or (rp is None and p['stages'] and p['stages'][-1]['op'] not in PE_TERMINALS
+                                                    and rng.random() < 0.15):
+            # error path: the same pipeline with a last lambda that fails on the first result it is applied to
+            tail = rp['tail'] if rp is not None else rng.choice(FAIL_TAILS)
+            try:
+                f2, text2 = failing_tail_verdict(p, ctx, tail)
+            except Bad:
+                continue
+            res.case(text2, True)
+            bump(hist, 'pipe-error-path:' + tail.split('(')[0])
+            if f2 and len([x for x in res.failures if x.key == f2[1]]) < 2:
+                q = p
+                for cand in [dict(p, stages=p['stages'][i:j]) for i in range(len(p['stages']) + 1)
+                             for j in range(i, len(p['stages']) + 1)][:40]:
+                    try:
+                        f3, _ = failing_tail_verdict(cand, ctx, tail)
+                    except Exception:       # noqa
+                        continue
+                    if f3 and f3[1] == f2[1] and len(cand['stages']) < len(q['stages']):
+                        q, f2 = cand, f3
+                res.fail(f2[0], f2[1], f2[2], dict(pipe=q, tail=tail, text=pipe_text(q)))
 
 
 # ------------------------------------------------------------------ single calls with a lambda per match / per common key
@@ -1862,7 +2218,7 @@ def run(env, res):
     tier = env['tier']
     rng = common.make_rng(env['seed'], 'C11')
     rp = None
-    n = 15000 if tier == 'quick' else 100000
+    n = 13000 if tier == 'quick' else 80000
     max_depth = 3 if tier == 'quick' else 4
     res.rule = ('typed random expressions of depth <= %d with a numbered probe in every operand position (operators, list/map '
                 'literals, indexer, method and keyword calls, library functions, every short-circuit function, def and assert '
@@ -1872,7 +2228,14 @@ def run(env, res):
                 'per-element lambdas, lazy pipelines as second collection of join/zip/concat, consumed completely or partly '
                 '(non-trivial = at least 2 probe events); plus single calls of mergeWith / search / searchAll / replaceBy. '
                 'Every argument is written positionally or by keyword (the alias of the live registry; a shuffled suffix of '
-                'the parameters), in a context of the camelCase or of the Python naming convention' % max_depth)
+                'the parameters), in a context of the camelCase or of the Python naming convention. ERROR PATHS: in a quarter '
+                'of the expressions one call ends in an exception (19 kinds: unknown function / method / property, method-only '
+                'function in function form, arity, no matching, ambiguous, host function raises, payload raises, assert), 4 %% '
+                'raise lazily while the result is converted, a quarter of the non-terminal pipelines get a failing last lambda: '
+                'the log up to the exception is compared. UNCONSUMED LAZY VALUES: pipelines / orderings with probes in their '
+                'lambdas in the positions that do not iterate (truth and null tests, conditions and branches of switch / '
+                'selectCase / coalesce / assert, dropped list elements and dict values, let bindings never read, arguments '
+                'handed on, predicate results)' % max_depth)
     ctxs = {k: conv_context('camel', k) for k in range(1, 7)}
     hist = {}
     cases = []
@@ -1889,8 +2252,15 @@ def run(env, res):
             tries += 1
             k = rng.randrange(1, 7)
             g = Gen(rng, ctxs[k], max_depth)
+            # error paths: in a quarter of the expressions one call ends in an exception (if it is reached)
+            mode = rng.random()
+            g.plant = mode < 0.25
             try:
-                text, x = g.expr(rng.choice('IBSLNA'), rng.randrange(1, max_depth + 1))
+                if 0.25 <= mode < 0.29:
+                    text, x = g.fail_at_output(rng.randrange(0, max_depth))
+                else:
+                    text, x = g.expr(rng.choice('IBSLNA'), rng.randrange(1, max_depth + 1))
+                    text, x = g.finish(text, x)
             except Bad:
                 bump(hist, 'regenerated')
                 continue
@@ -1899,47 +2269,73 @@ def run(env, res):
             cases.append((text, x, k, 'python' if rng.random() < 0.2 else 'camel'))
     model = None
     if drv:
-        model = []
+        model, mruns = [], []
         for i in range(0, len(cases), 500):
-            model += drv.ask(dict(p='C11', xs=[c[1] for c in cases[i:i + 500]]))['traces']
+            rep = drv.ask(dict(p='C11', xs=[c[1] for c in cases[i:i + 500]]))
+            model += rep['traces']
+            mruns += rep['runs']
     if env['replay'] and (rp.get('pipe') or rp.get('call')):
         cases = []
     run_pipes(env, res, rng, ctxs, hist, rp if env['replay'] else None)
     run_calls(env, res, hist, rp if env['replay'] else None)
     for ci, (text0, x, k, conv) in enumerate(cases):
-        exp = py_trace(x)
+        exp, exp_failed = py_run(x)
         text = conv_text(text0, conv)
         lazy = any(s in text0 for s in (' and ', ' or ', '?.', 'switch', 'selectCase', 'selectAllCases', 'examine',
                                         'coalesce', 'def(', '.assert('))
-        res.case(text, len(exp) >= 3 and (lazy or 'g(' in text), sample=text if ci in (8, 9, 10) else None)
+        res.case(text, len(exp) >= 3 and (lazy or 'g(' in text) or (exp_failed and len(exp) >= 1),
+                 sample=text if ci in (8, 9, 10) or (exp_failed and ci % 500 < 8) else None)
         case = dict(text=text0, x=x, overloads=k, conv=conv)
         where = '' if conv == 'camel' else ', context of the %s naming convention' % conv
-        log, err = real_log(text, conv_context(conv, k))
+        log, err = real_log(text, conv_context(conv, k), keep=True)
         bump(hist, 'overloads:%d' % k)
         bump(hist, 'conv:' + conv)
-        if err is not None:
+        dormant = set(i for d in lazy_nodes(x) for i in probe_ids(d['d'])) - set(py_trace(x))
+        if dormant:
+            bump(hist, 'holds-unconsumed-lazy-value')
+        if model is not None:
+            res.traces += 1
+            if model[ci] != py_trace(x):
+                res.fail('mismatch', 'model', '%s: Lean trace %r, transcription %r' % (text, model[ci], py_trace(x)), case)
+            if mruns[ci] != dict(log=exp, failed=exp_failed):
+                res.fail('mismatch', 'model-run', '%s: Lean run %r, transcription %r' % (text, mruns[ci], (exp, exp_failed)), case)
+        if err is not None and not exp_failed:
             bump(hist, 'raised:' + err)
             if conv != 'camel' and real_log(text0, ctxs[k])[1] is None:
                 res.fail('oracle', 'convention', '%s%s: raises %s, while %s is evaluated in a context of the default '
                          'convention' % (text, where, err, text0), case)
             continue
-        bump(hist, 'log-len:%d' % min(len(log), 12))
-        if log != exp:
-            key = 'double-evaluation' if len(set(log)) < len(log) else 'order'
-            res.fail('oracle', key, '%s (g has %d overloads%s): real log %r, reference order %r' % (
-                text, k, where, log, exp), case)
+        if exp_failed:
+            # ---- error path: the log at the point of failure
+            bump(hist, 'error-path:' + (err or 'NO-EXCEPTION'))
+            bump(hist, 'error-path-log-len:%d' % min(len(exp), 12))
+            if err is None:
+                res.fail('mismatch', 'model-error-path', '%s%s: the reference expects an exception after the probes %r; the '
+                         'evaluation returns (log %r)' % (text, where, exp, log), case)
+                continue
+            if log != exp:
+                twice = sorted(set(i for i in log if log.count(i) > exp.count(i)))
+                key = 'error-path-double-evaluation' if twice else 'error-path-order'
+                res.fail('oracle', key, '%s (g has %d overloads%s): the evaluation ends in %s; probe log up to the exception '
+                         '%r, but the arguments evaluated before the failing call, once each and in order, give %r%s' % (
+                             text, k, where, err, log, exp,
+                             ' (evaluated more than once: %r)' % twice if twice else ''), case)
+        else:
+            bump(hist, 'log-len:%d' % min(len(log), 12))
+            if log != exp:
+                woken = sorted(i for i in set(log) if i in dormant)
+                key = 'unconsumed-lazy-evaluated' if woken else 'double-evaluation' if len(set(log)) < len(log) else 'order'
+                res.fail('oracle', key, '%s (g has %d overloads%s): real log %r, reference order %r%s' % (
+                    text, k, where, log, exp, ' (the probes %r sit inside per-element lambdas of a lazy value that nothing '
+                    'iterates: a per-element lambda runs once per element CONSUMED)' % woken if woken else ''), case)
         if 'g(' in text:
-            # the log must not depend on the number of overloads of g
+            # the log must not depend on the number of overloads of g (neither must the point of failure)
             for k2 in (1, 6):
                 if k2 != k:
-                    log2, err2 = real_log(text, conv_context(conv, k2))
-                    if err2 is None and log2 != log:
+                    log2, err2 = real_log(text, conv_context(conv, k2), keep=True)
+                    if (err2 is None) == (err is None) and log2 != log:
                         res.fail('oracle', 'grows-with-overloads', '%s: log %r with %d overloads of g, %r with %d' % (
                             text, log, k, log2, k2), case)
-        if model is not None:
-            res.traces += 1
-            if model[ci] != exp:
-                res.fail('mismatch', 'model', '%s: Lean trace %r, transcription %r' % (text, model[ci], exp), case)
         if len(res.failures) >= 12:
             break
     res.extra['histogram'] = hist
@@ -1963,7 +2359,14 @@ LEVEL_TEXT = ('Lean 4: the evaluation log of the resolver model is one left-to-r
               'consumed and in input order, the probes of pulling it and of the lambda body on it, once - for the whole result '
               'and for its first k+1 results; nothing of the elements behind), take_log (a consumer of k results consumes '
               'exactly k), instances for select/where/distinct/takeWhile/skipWhile/selectMany/any/all/indexWhere/first/'
-              'accumulate/zip/concat/join (join_pass_events, join_empty_outer). Tie: generated probe expressions, pipelines '
+              'accumulate/zip/concat/join (join_pass_events, join_empty_outer). Error paths (Props/C11Err over EvalOrder.run, '
+              'the evaluation that stops at the first failing call): run_prefix - the log of an evaluation that ends in an '
+              'exception is a prefix of the log of the same expression with the failing call succeeding (everything in front '
+              'once, in order, nothing behind, nothing twice), run_complete / run_of_noRaise, calls_prefix_of_probes / '
+              'calls_nodup, evalPassE_prefix / evalPassE_first_raise for the pass of choose_overload over arguments that may '
+              'raise. Lazy values nothing consumes: unconsumed_never_fires (the probes inside the per-element lambdas of a '
+              'lazy value in a position that does not iterate it are not in the log), not_consumed_no_application (a pipeline '
+              'of any stages over any source of which no result is asked for fires nothing), consumed_prefix_only. Tie: generated probe expressions, pipelines '
               'and single calls, every argument written positionally or by keyword, in contexts of the camelCase and of the '
               'Python convention, evaluated by the real engine, log compared with the predicted trace; C05/C06 tie the '
               'resolver model.')
